@@ -84,3 +84,33 @@ V('C04', 'b-sorted-inline', RUF, 'get_total_blocks', 'get_blocks_in_file(filenam
 V('C04', 'b-obsfreq-rewrite', BK, 'RawVoltageBackend._header_populate_configuration',
   'center_freq = (self.start_chan + (self.num_chans - 1) / 2) * self.chan_bw\n    center_freq += self.fch1',
   'center_freq = self.fch1 + self.start_chan * self.chan_bw + 0.5 * (self.num_chans - 1) * self.chan_bw', kind='benign')
+
+# ------------------------------------------------------------------ C07
+DSF = 'voltage/data_stream.py'
+WFF = 'voltage/waterfall.py'
+V('C07', 'no-desc-flip', DSF, 'DataStream.add_constant_signal', 'if not self.ascending:\n            chirp_phase = -chirp_phase', 'pass')
+V('C07', 'chirp-no-half', DSF, 'DataStream.add_constant_signal', '0.5 * drift_rate * ts ** 2', 'drift_rate * ts ** 2')
+V('C07', 'chirp-abs-freq', DSF, 'DataStream.add_constant_signal', '(f_start - self.fch1) * ts', 'f_start * ts')
+V('C07', 'chirp-sin', DSF, 'DataStream.add_constant_signal', 'xp.cos(chirp_phase + phase)', 'xp.sin(chirp_phase + phase)')
+V('C07', 'chan-off-by-one', BK, 'RawVoltageBackend.collect_data_block', 'v[:, self.start_chan:self.start_chan + self.num_chans]', 'v[:, self.start_chan:self.start_chan + self.num_chans - 1]')
+V('C07', 'chan-from-zero', BK, 'RawVoltageBackend.collect_data_block', 'v[:, self.start_chan:self.start_chan + self.num_chans]', 'v[:, 0:self.num_chans]')
+V('C07', 'chanbw-no-sign', BK, 'RawVoltageBackend.__init__', 'if not self.ascending:\n        self.chan_bw = -self.chan_bw', 'pass')
+V('C07', 'obsfreq-writer-half', BK, 'RawVoltageBackend._header_populate_configuration', '(self.num_chans - 1) / 2', 'self.num_chans / 2')
+V('C07', 'obsfreq-reader-half', RUF, 'get_raw_params', '(num_chans - 1) / 2', 'num_chans / 2')
+V('C07', 'reader-fch1-plus', RUF, 'get_raw_params', 'center_freq - (start_chan', 'center_freq + (start_chan')
+V('C07', 'reader-asc-flip', RUF, 'get_raw_params', "raw_params['ascending'] = chan_bw > 0", "raw_params['ascending'] = chan_bw < 0")
+V('C07', 'reader-nchan-no-ants', RUF, 'get_raw_params', "int(header['OBSNCHAN']) // num_antennas", "int(header['OBSNCHAN'])")
+V('C07', 'swap-positional', WFF, 'get_waterfall_from_raw', 'fftlength=fftlength, int_factor=int_factor', 'int_factor, fftlength')
+V('C07', 'swap-keywords', WFF, 'get_waterfall_from_raw', 'fftlength=fftlength, int_factor=int_factor', 'fftlength=int_factor, int_factor=fftlength')
+V('C07', 'fftshift-time', WFF, 'get_pfb_waterfall', 'xp.fft.fftshift(XX, axes=2)', 'xp.fft.fftshift(XX, axes=1)')
+V('C07', 'fft-axis', WFF, 'get_pfb_waterfall', 'xp.fft.fft(X_samples, fftlength, axis=2)', 'xp.fft.fft(X_samples, fftlength, axis=1)')
+V('C07', 'concat-axis0', WFF, 'get_pfb_waterfall', 'xp.concatenate(XX_psd, axis=1)', 'xp.concatenate(XX_psd, axis=0)')
+V('C07', 'no-fftshift', WFF, 'get_pfb_waterfall', 'XX = xp.fft.fftshift(XX, axes=2)', 'pass')
+V('C07', 'sum-axis', WFF, 'get_pfb_waterfall', 'XX_psd.sum(axis=1)', 'XX_psd.sum(axis=0)')
+V('C07', 'deinterleave-y', WFF, 'get_waterfall_from_raw', 'rawbuffer[:, 2::4] + rawbuffer[:, 3::4] * 1j', 'rawbuffer[:, 1::4] + rawbuffer[:, 3::4] * 1j')
+V('C07', 'unitdrift-fft', 'voltage/level_utils.py', 'get_unit_drift_rate', 'df = raw_voltage_backend.chan_bw / fftlength', 'df = raw_voltage_backend.chan_bw / (fftlength * int_factor)')
+V('C07', 'swap-pfb-args', 'voltage/polyphase_filterbank.py', 'PolyphaseFilterbank.channelize', 'pfb_frontend(x, self.window, self.num_taps, self.num_branches)', 'pfb_frontend(x, self.window, self.num_branches, self.num_taps)')
+V('C07', 'b-chirp-refactor', DSF, 'DataStream.add_constant_signal', 'chirp_phase = 2 * xp.pi * ((f_start - self.fch1) * ts + 0.5 * drift_rate * ts ** 2)', 'df0 = f_start - self.fch1\n        chirp_phase = xp.pi * (2 * df0 * ts + drift_rate * ts * ts)', kind='benign')
+V('C07', 'b-keywords-order', WFF, 'get_waterfall_from_raw', 'fftlength=fftlength, int_factor=int_factor', 'int_factor=int_factor, fftlength=fftlength', kind='benign')
+V('C07', 'b-reader-rewrite', RUF, 'get_raw_params', 'center_freq - (start_chan + (num_chans - 1) / 2) * chan_bw', 'center_freq - start_chan * chan_bw - 0.5 * (num_chans - 1) * chan_bw', kind='benign')
+V('C07', 'b-fft-method', WFF, 'get_pfb_waterfall', 'XX_psd.sum(axis=1)', 'xp.sum(XX_psd, axis=1)', kind='benign')
